@@ -6,7 +6,12 @@ Enumerated completely (see FAMILIES below): small geocentric networks at
 places on the WGS84 ellipsoid x observation-type subsets x every n/e/u status
 combination from a status alphabet x approximate-coordinate modes x the four
 algorithms of the real `gama-g3` executable; for a sub-family every
-permutation of the <point> and of the <obs> records.  Each executed network
+permutation of the <point> and of the <obs> records and every grouping of the
+records into multi-piece <obs> clusters.  Families dh*: every assignment of
+<from-dh>/<to-dh> (absent / present) to the records of small record sets, also
+inside the clusters of the grouping layer.  Families wrap*: a second layout
+with angles of +-2..3 cc around 0 / 400 gon whose computed value falls on the
+other side of the wrap (lib/g3gen.py RAY_OFFSETS).  Each executed network
 also has its --project-equations dump read back by GNU_gama::DataParser and
 solved by GNU_gama::Adj (harness/g3mc.cpp).  Oracles: lib/g3net.py.
 """
@@ -28,30 +33,73 @@ def subsets(types, sizes):
     return out
 
 
+# ---- instrument / target heights: nets with few enough records for every dh mask
+# (types, record selection = indices into the canonical record list of the type set, both ends only?, status tuples)
+# canonical records: vector AB BC CA; distance AB AC BC; zenith AB BC CA BA CB AC; angle A;BC B;CA C;AB A;CB
+DH_NETS = [
+    # 3 vectors: {-,f,t,b}^3
+    (("vector",), None, False, [("xx", "ff", "cf"), ("ff", "xx", "fx"), ("cc", "cc", "cc"), ("xx", "ff", "ff")]),
+    # total station only, d AB AC BC + z AB BC CA: {-,b}^6 (two positions fixed: distances and zenith angles leave the azimuth free)
+    (("distance", "zenith"), (0, 1, 2, 3, 4, 5), True, [("xx", "xf", "ff"), ("xf", "xx", "cf"), ("xx", "fx", "xf")]),
+    # v AB BC, d AC, z CA AC, a A;BC B;CA: {-,b}^5 x {-,f}^2
+    (("vector", "distance", "zenith", "angle"), (0, 1, 4, 8, 11, 12, 13), True, [("xx", "fc", "ff"), ("xx", "ff", "ff"), ("ff", "xx", "fx")]),
+    # v AB BC, d AC, z CA, a A;BC: {-,b}^4 x {-,f} (the first status tuple also in the order layer, as for the 3 vectors)
+    (("vector", "distance", "zenith", "angle"), (0, 1, 4, 8, 12), True, [("xx", "fc", "ff"), ("fc", "xx", "cf")]),
+]
+DH_ORDER_BIG = (("vector", "distance", "zenith", "angle"), (0, 1, 4, 5, 6, 8, 12), True, [("xx", "fc", "ff")])   # v AB BC, d AC BC, z AB CA, a A;BC (thorough order layer)
+
+
+def dh_masks(types, recs, both_only):
+    """every assignment absent / present (per end, or both ends together) to the records that can carry heights"""
+    sp = {"place": 0, "npts": 3, "types": types, "status": ("xx",) * 3, "mode": "true"}
+    if recs is not None:
+        sp["recs"] = recs
+    alph = [N.dh_alphabet(o, both_only) for o, _ in N.records(sp)]
+    return ["".join(m) for m in itertools.product(*alph)]
+
+
 def families(tier):
-    """list of (name, places, npts, type-sets, status alphabet, modes); each is a complete product"""
+    """list of dicts: name, places, npts, nets [(types, record selection or None, dh masks or None)], statuses, modes, lay;
+    each family is the complete product of its dimensions"""
     T = N.TYPES
     lin = [("vector",), ("xyz",), ("vector", "xyz")]
     STA = ["xx", "fx", "cx", "ff", "fc"]          # with points of free / constrained n,e and fixed u
+
+    def fam(name, places, npts, tsets, alphabet, modes, lay=0):
+        return {"name": name, "places": places, "npts": npts, "nets": [(tuple(t), None, None, None) for t in tsets],
+                "statuses": list(itertools.product(alphabet, repeat=npts)), "alphabet": alphabet, "modes": modes, "lay": lay}
+
+    def dhfam(name, places, nets, modes):
+        return {"name": name, "places": places, "npts": 3, "nets": [(t, r, dh_masks(t, r, bo), sts) for (t, r, bo, sts) in nets],
+                "statuses": None, "alphabet": None, "modes": modes, "lay": 0}
+
     if tier == "quick":
         P = [1, 2, 5]
         tsets = subsets(T, [1]) + [("vector", t) for t in T if t != "vector"] + [T]
         return [
-            ("azimuth3", P, 3, [("azimuth",)], ST4, ("true",)),
-            ("linear3", P, 3, lin, ST4, ("far", "omit", "noisy")),
-            ("anglefx3", P, 3, [("vector", "angle"), ("distance", "angle"), T], STA, ("true", "pert")),
-            ("mix3", P, 3, tsets, ST5, ("true", "pert")),
+            fam("azimuth3", P, 3, [("azimuth",)], ST4, ("true",)),
+            fam("linear3", P, 3, lin, ST4, ("far", "omit", "noisy")),
+            dhfam("dhlinear3", [1], [n[:3] + (n[3][:2],) for n in DH_NETS[:1]], ("omit", "noisy")),
+            dhfam("dh3", [1], [n[:3] + (n[3][:2],) for n in DH_NETS], ("pert",)),
+            # places midlat, south60, near180: at south60 a station displaced alone sees B and C in line to 2e-9 rad (known finding: acos)
+            fam("wrap3", [1, 3, 5], 3, [("vector", "angle"), ("distance", "angle"), ("xyz", "angle")], STA, ("pert",), lay=1),
+            fam("anglefx3", P, 3, [("vector", "angle"), ("distance", "angle"), T], STA, ("true", "pert")),
+            fam("mix3", P, 3, tsets, ST5, ("true", "pert")),
         ]
     P = list(range(len(G.PLACES)))
     withangle = [t for t in subsets(T, [2, 3, 7]) if "angle" in t]
     # small families first: a deadline cuts the largest product last
     return [
-        ("azimuth3", P, 3, [("azimuth",)], ST5, ("true",)),
-        ("linear3", P, 3, lin, ALL9, ("far", "omit", "noisy")),
-        ("mix4", P, 4, subsets(T, [1]) + [("vector", "distance"), ("distance", "height", "zenith"), T], ST4, ("true", "pert")),
-        ("anglefx3", P, 3, withangle, STA, ("true", "pert")),
-        ("full9", [1, 5], 3, subsets(T, [1, 2]), ALL9, ("true", "pert")),
-        ("mix3", P, 3, subsets(T, [1, 2, 3, 7]), ST5, ("true", "pert")),
+        fam("azimuth3", P, 3, [("azimuth",)], ST5, ("true",)),
+        fam("linear3", P, 3, lin, ALL9, ("far", "omit", "noisy")),
+        dhfam("dhlinear3", P, DH_NETS[:1], ("far", "omit", "noisy")),
+        dhfam("dh3", P, DH_NETS, ("true", "pert")),
+        fam("wrap3", P, 3, withangle, STA, ("true", "pert"), lay=1),
+        fam("wrap4", [1, 5], 4, [("vector", "angle"), ("distance", "angle"), ("distance", "zenith", "angle"), T], ST4, ("pert",), lay=1),
+        fam("mix4", P, 4, subsets(T, [1]) + [("vector", "distance"), ("distance", "height", "zenith"), T], ST4, ("true", "pert")),
+        fam("anglefx3", P, 3, withangle, STA, ("true", "pert")),
+        fam("full9", [1, 5], 3, subsets(T, [1, 2]), ALL9, ("true", "pert")),
+        fam("mix3", P, 3, subsets(T, [1, 2, 3, 7]), ST5, ("true", "pert")),
     ]
 
 
@@ -97,6 +145,28 @@ def order_jobs(tier):
                 grouped = [(pid, rp, g) for rp in rps for g in compositions(nrec) if len(g) < nrec]
                 for i in range(0, len(grouped), step):
                     jobs.append((sp, [ident] + grouped[i:i + step]))
+    # instrument / target heights inside clusters: for every assignment of from-dh / to-dh (absent / present) to the
+    # records, every grouping of the records into <obs> clusters - in all record orders (3 records) or in the given and
+    # the reversed order (more) - must give the result of the same records written one per <obs>: a record with a
+    # height is followed by one without and the reverse, in one cluster and across a cluster boundary
+    dhnets = [(DH_NETS[0], P[:1] if tier == "quick" else P),
+              (DH_NETS[3], P[:1] if tier == "quick" else P)]
+    if tier != "quick":
+        dhnets.append((DH_ORDER_BIG, [1, 5]))
+    for ((types, recs, bo, sts), places) in dhnets:
+        status = sts[0]
+        for pl in places:
+            for mask in dh_masks(types, recs, bo):
+                sp = {"place": pl, "npts": 3, "types": types, "status": status, "mode": "pert", "dh": mask}
+                if recs is not None:
+                    sp["recs"] = recs
+                nrec = len(N.records(sp))
+                pid = tuple(range(3))
+                ident = (pid, tuple(range(nrec)))
+                rps = list(itertools.permutations(range(nrec))) if nrec <= 3 else [tuple(range(nrec)), tuple(reversed(range(nrec)))]
+                grouped = [(pid, rp, g) for rp in rps for g in compositions(nrec) if len(g) < nrec]
+                for i in range(0, len(grouped), 60):
+                    jobs.append((sp, [ident] + grouped[i:i + 60]))
     return jobs
 
 
@@ -213,16 +283,29 @@ def main():
                 if res["sample"] and len(ck.samples) < 2:
                     ck.sample(res["sample"])
                 report(ck, res, order=True)
-        bounds.append("order: %d chunks, every permutation of the <point> records x every permutation of the <obs> records x 4 algorithms, and every grouping of consecutive <obs> records into clusters assembled from several covariance pieces; %d non-identity orders / groupings" % (len(jobs), norders))
-    for (name, places, npts, tsets, alphabet, modes) in ([] if cut else fams):
+        bounds.append("order: %d chunks, every permutation of the <point> records x every permutation of the <obs> records x 4 algorithms, and every grouping of consecutive <obs> records into clusters assembled from several covariance pieces - the latter also for every assignment of from-dh/to-dh (absent / present) to the records of the nets with heights (%d of the chunks: a record with a height followed by one without and the reverse, inside one cluster and across a cluster boundary); %d non-identity orders / groupings" % (len(jobs), sum(1 for j in jobs if j[0].get("dh")), norders))
+    for F in ([] if cut else fams):
+        name, places, npts, modes = F["name"], F["places"], F["npts"], F["modes"]
         specs = []
         for pl in places:
-            for types in tsets:
-                for st in itertools.product(alphabet, repeat=npts):
+            for (types, recs, masks, sts) in F["nets"]:
+                for st in (sts or F["statuses"]):
                     for mode in modes:
-                        specs.append({"place": pl, "npts": npts, "types": tuple(types), "status": tuple(st), "mode": mode})
-        bounds.append("%s: %d places x %d points x %d type sets x %d^%d statuses x modes %s = %d networks"
-                      % (name, len(places), npts, len(tsets), len(alphabet), npts, "/".join(modes), len(specs)))
+                        for mask in (masks or [None]):
+                            sp = {"place": pl, "npts": npts, "types": tuple(types), "status": tuple(st), "mode": mode}
+                            if recs is not None:
+                                sp["recs"] = tuple(recs)
+                            if F["lay"]:
+                                sp["lay"] = F["lay"]
+                            if mask is not None:
+                                sp["dh"] = mask
+                            specs.append(sp)
+        nmask = sum(len(n[2]) for n in F["nets"] if n[2])
+        bounds.append("%s: %d places x %d points x %s x %s x modes %s%s = %d networks"
+                      % (name, len(places), npts,
+                         ("%d type sets" % len(F["nets"])) if not nmask else ("%d record sets with every assignment of from-dh/to-dh absent/present to their records (%d masks)" % (len(F["nets"]), nmask)),
+                         ("%d^%d statuses" % (len(F["alphabet"]), npts)) if F["alphabet"] else ("%s status tuples" % "/".join(str(len(n[3])) for n in F["nets"])),
+                         "/".join(modes), " x layout 'ray' (angles within 3 cc of 0/400 gon, sights 53-111 m)" if F["lay"] else "", len(specs)))
         done = 0
         for i in range(0, len(specs), 4000):
             if ck.time_left() < deadline_margin:
@@ -257,20 +340,26 @@ def main():
         "parameters/equations/defect/redundancy = reference (defect = exact nullity), adjusted coordinates = generating coordinates within 2e-6 m (see assumptions for zenith networks from displaced coordinates) "
         "(resolved-defect networks from displaced coordinates: observations reproduced and corrections orthogonal to the null space over the constrained parameters; "
         "noisy vector networks: own weighted least squares), zero residuals, agreement of the 4 algorithms, of all record orders and of all groupings of the records into <obs> clusters, and of Adj on the dump. "
+        "Instrument / target heights: in the dh families every record that accepts <from-dh>/<to-dh> (vector, distance, zenith; angle: from-dh) carries them or not, in every combination; the observed value then refers to "
+        "the points displaced along their local vertical (reference model of its own) - alone in its <obs> and, in the order layer, in every grouping of the records into multi-piece clusters. "
+        "Angles through 0 / 400 gon: the layout 'ray' (families wrap*) holds angles of +2..3 cc and 400 gon - 2..3 cc whose value computed from the displaced approximate coordinates falls on the other side of the wrap, "
+        "in both directions (counters angles_observed_above_0_computed_below_400 / angles_observed_below_400_computed_above_0). "
         "A state = one generated input file that was executed; a transition = one gama-g3 execution or one Adj solution of a dump. Families: " + " | ".join(bounds),
         extra={"families": bounds, "unlisted_violation_signatures": dict(sorted(ck.viol_sigs.items())),
                "alphabet": {"types": list(N.TYPES), "singles_only": list(N.EXTRA_TYPES), "places": [p[0] for p in G.PLACES],
                             "status_codes": "x fixed, f free, c constr; two letters per point: horizontal position (n,e) and height (u)"}},
         assumptions=[
-            "networks of 3-4 points within 5 km, sights 1.6-4.3 km, height differences 120-720 m; other geometries are not covered",
+            "networks of 3-4 points within 5 km, sights 1.6-4.3 km, height differences 120-720 m; layout 'ray' (families wrap*): sights 53-111 m, height differences 6-18 m, B and C on one ray from A (C 0.4 mm off it); other geometries are not covered",
             "ill-posed networks (defect not resolved by the constrained parameters, or rank decided only by pivots between 1e-10 and 1e-2 of the natural row scale) are excluded by construction and counted as outcome classes excluded:*",
             "a rank defect counts as exact only if no zenith-angle or angle row touches a parameter on which the null space lives: those rows may legitimately be approximated (plane formulae, neglected tilt of the verticals, relative 1e-7..6e-3), and then the rank of the implementation's matrix is decided by the neglected terms (seen: gso/svd defect 0, envelope/cholesky defect 1 for zenith networks at 89.9 N and for hdiff+angle networks with a common height shift); such networks are excluded as ambiguous",
             "tolerance of adjusted = generating: 2e-6 m; from displaced approximate coordinates in networks with zenith angles plus eps x 0.57 mm, eps = (1/6.33e6 m) / min(|u|/s) <= 6.5e-3 = the turn of the station's vertical with its position, which gama's plane zenith row leaves out (at most 3.7e-6 m more; observed 2.1-2.3e-6 m where only zenith angles determine a horizontal position). gama-g3 takes one Gauss-Newton step, so a neglected term of relative size eps leaves eps x displacement; with approximate = generating coordinates the tolerance stays 2e-6 m",
             "gama-g3 does not iterate: approximate coordinates are the generating ones or displaced by 0.3-0.6 mm (second order term < 1e-9 m); 0.17-0.34 m only for the linear vector/xyz families",
             "status combinations exist only for n,e jointly (the parser refuses different n and e states) and u",
             "azimuth is not in the alphabet (every <azimuth> is refused by the parser: known finding; family azimuth3 keeps it visible)",
-            "angles are clockwise left -> right in 0..400 gon; every network with angles contains the explement of its first angle (> 200 gon)",
-            "instrument/target heights (from-dh, to-dh), deflections of the vertical, b/l/h input and angular values in degrees are not varied",
+            "angles are clockwise left -> right in 0..400 gon; every network with angles contains the explement of its first angle (> 200 gon); angles nearer to 0 / 400 gon than 2 cc are not generated (gama takes the angle from an arc cosine: resolution 1e-16 rad / angle)",
+            "instrument/target heights are 0.15-0.44 m (every fourth to-dh negative), distinct per record and end, on the long-sight layout only: gama builds the distance row from the marks, not from instrument and target (direction off by dh/s), which the single step turns into dh/s x displacement - below 5e-7 m here, but not for heights of metres on sights of 60 m",
+            "<left-dh>/<right-dh> of an angle are not varied: DataParser::g3_obs_angle reads them from the <to-dh> slot (they are silently ignored), but a target height changes a horizontal angle by < 1e-9 rad, far below what the oracle can see",
+            "deflections of the vertical, b/l/h input and angular values in degrees are not varied",
         ])
 
 
